@@ -8,6 +8,8 @@
 //   T <mode> <clients> <txs> => order-ok|order-broken  identical|changed
 //   P <client> <method> <conn> <o1> <o2> <o3> <o4> => <ok|err> <accepted connections> <handler deliveries>
 //        o_i in df (dial fails) cf0/cf1 (call fails, handler not run / run) to0/to1 (timeout) ok
+//   PX K <n> <world> <call> => kept <values>          retention part: values kept and re-compared after every later call
+//   PX A <world> <kind> => independent|shared          caller / handler copy mutated in place after the call
 //   Z ... statistics      V C20 <class> <detail> oracle violations
 package main
 
@@ -21,6 +23,7 @@ import (
 	"math/rand"
 	"net"
 	"os"
+	"runtime/pprof"
 	"sort"
 	"strings"
 	"sync"
@@ -69,6 +72,10 @@ type Handler struct {
 	snapArg    int
 	restoreArg []byte
 	stateArg   state.State
+	// everything the handler was ever given (retention checks)
+	snapArgs    []int
+	restoreArgs [][]byte
+	stateArgs   []state.State
 }
 
 func NewHandler() *Handler { return &Handler{calls: map[string]int{}} }
@@ -102,6 +109,7 @@ func (h *Handler) SnapshotHandler(i int) ([]byte, error) {
 	h.mu.Lock()
 	defer h.mu.Unlock()
 	h.snapArg = i
+	h.snapArgs = append(h.snapArgs, i)
 	if err := h.nextErr("snapshot"); err != nil {
 		return nil, err
 	}
@@ -111,6 +119,7 @@ func (h *Handler) RestoreHandler(s []byte) ([]byte, error) {
 	h.mu.Lock()
 	defer h.mu.Unlock()
 	h.restoreArg = s
+	h.restoreArgs = append(h.restoreArgs, s)
 	if err := h.nextErr("restore"); err != nil {
 		return nil, err
 	}
@@ -120,6 +129,7 @@ func (h *Handler) StateChangeHandler(s state.State) error {
 	h.mu.Lock()
 	defer h.mu.Unlock()
 	h.stateArg = s
+	h.stateArgs = append(h.stateArgs, s)
 	return h.nextErr("state")
 }
 func (h *Handler) Calls(m string) int {
@@ -165,6 +175,14 @@ func (d *Drain) Len() int {
 	d.mu.Lock()
 	defer d.mu.Unlock()
 	return len(d.txs)
+}
+func (d *Drain) At(i int) []byte {
+	d.mu.Lock()
+	defer d.mu.Unlock()
+	if i < 0 || i >= len(d.txs) {
+		return []byte("<missing>")
+	}
+	return d.txs[i]
 }
 func (d *Drain) Take() [][]byte {
 	d.mu.Lock()
@@ -603,6 +621,9 @@ func (w *SockWorld) runFault(g *Gen, fc *FaultCase, id int, stats map[string]int
 		var got proxy.CommitResponse
 		got, err = w.app.CommitBlock(*b)
 		if err == nil {
+			ci := ret.Call(fmt.Sprintf("fault-commit(receipts=%d,plan=%v)", len(resp.InternalTransactionReceipts), fc.plan))
+			kept := got
+			ret.Keep(ci, "socket", "commit-response", respOrder, respFields(&resp), func() map[string]string { return respFields(&kept) })
 			ch, _ := diffFields(respOrder, respFields(&resp), respFields(&got))
 			wrongReply = len(ch) > 0
 			emptyReply = len(got.StateHash) == 0 && len(got.InternalTransactionReceipts) == 0
@@ -874,8 +895,17 @@ func main() {
 	nf := flag.Int("faults", 120, "random fault plans in addition to the enumerated ones")
 	large := flag.Int("large", 200000, "size of large byte strings")
 	tmo := flag.Int("timeout", 120, "proxy timeout (ms) in the fault part")
+	nret := flag.Int("retain", 120, "calls of the retention / aliasing part")
 	bad := flag.Bool("badstrings", true, "also generate strings that are not valid UTF-8 (reported apart)")
+	maxSec := flag.Int("maxsec", 420, "watchdog: dump all goroutines and exit 3 after this many seconds")
 	flag.Parse()
+	// the application-side client has no timeout (rpc.Call): a call that never returns must not hang the check
+	go func() {
+		time.Sleep(time.Duration(*maxSec) * time.Second)
+		fmt.Fprintf(os.Stderr, "proxy harness watchdog: still running after %d s\n", *maxSec)
+		pprof.Lookup("goroutine").WriteTo(os.Stderr, 1)
+		os.Exit(3)
+	}()
 	out = bufio.NewWriterSize(os.Stdout, 1<<20)
 	defer out.Flush()
 	stats := map[string]int{}
@@ -886,10 +916,15 @@ func main() {
 	iw := NewInmemWorld()
 	contentCases(g, sw, iw, *n, stats)
 	txCases(g, sw, iw, *ntx, stats)
+	retentionCases(g, sw, iw, *nret, stats)
 	faultPart(g, time.Duration(*tmo)*time.Millisecond, *nf, stats)
 	if *bad {
 		badStringCases(g, sw, iw, 12, stats)
 	}
+	// everything any call returned or delivered during the whole run, once more
+	ret.Recheck("end of run")
+	stats["retained_values"] = len(ret.items)
+	stats["retained_rechecks"] = ret.rechecks
 	keys := []string{}
 	for k := range stats {
 		keys = append(keys, k)
